@@ -7,6 +7,7 @@ import (
 
 	"github.com/iDigitalFlame/xmt/c2/cfg"
 	"github.com/iDigitalFlame/xmt/com"
+	"github.com/iDigitalFlame/xmt/data"
 )
 
 // Shim for property C07: the unexported send and receive paths, unchanged.
@@ -19,4 +20,31 @@ func VerifC07WritePacket(c net.Conn, w cfg.Wrapper, t cfg.Transform, n *com.Pack
 // VerifC07ReadPacket is readPacket.
 func VerifC07ReadPacket(c net.Conn, w cfg.Wrapper, t cfg.Transform) (*com.Packet, error) {
 	return readPacket(c, w, t)
+}
+
+// VerifC07PoolProbe takes n Chunks from the buffers pool (sync.Pool.Get: pooled ones first, then
+// new ones), reports their sizes and puts them back so that the pool hands them out in the same
+// order again (the first one taken is put first: it goes back to the private slot, the others are
+// pushed so that the second one taken is on top).  With clean set, a non-empty Chunk is cleared
+// before it goes back (the harness does that at the end of a history so that a defect seen in one
+// history does not spill into the cases that follow).  Nothing in readPacket/writePacket changes.
+func VerifC07PoolProbe(n int, clean bool) []int {
+	var (
+		c = make([]*data.Chunk, n)
+		s = make([]int, n)
+	)
+	for i := range c {
+		c[i] = buffers.Get().(*data.Chunk)
+		s[i] = c[i].Size()
+		if clean && s[i] > 0 {
+			c[i].Clear()
+		}
+	}
+	if n > 0 {
+		buffers.Put(c[0])
+	}
+	for i := n - 1; i >= 1; i-- {
+		buffers.Put(c[i])
+	}
+	return s
 }
